@@ -14,7 +14,7 @@ use vpmodel::spec::ChainSpec;
 pub const DEF: PropDef = PropDef {
     id: "C01",
     level: "exploration",
-    rule: "generated chains (8 coins, 1..6 blocks, tx/input/output counts and script/witness lengths drawn from CompactSize boundary classes, legacy and BIP144 txs, arbitrary u32/u64 fields, --verify on/off) written as a data directory, plus one fixed chain with a transaction of 0x10001 inputs and 66 000 outputs; csvdump output compared byte-for-byte with the reference rendering. Non-trivial = >=2 blocks and (a count or length equal to 0xfc/0xfd/0xffff/0x10000, or a segwit tx, or a tx with >=2 inputs and >=2 outputs); distinct by hash of the case.",
+    rule: "generated chains (8 coins, 1..6 blocks, tx/input/output counts and script/witness lengths drawn from CompactSize boundary classes, legacy and BIP144 txs, arbitrary u32/u64 fields, --verify on/off, 15% into a dump folder that still holds longer stale *.csv.tmp files) written as a data directory, plus one fixed chain with a transaction of 0x10001 inputs and 66 000 outputs; csvdump output compared byte-for-byte with the reference rendering. Non-trivial = >=2 blocks and (a count or length equal to 0xfc/0xfd/0xffff/0x10000, or a segwit tx, or a tx with >=2 inputs and >=2 outputs); distinct by hash of the case.",
     assumptions: &["canonical CompactSize encodings only (non-canonical ones cannot occur in accepted blocks)", "SHA-256 compression function of bitcoin_hashes is shared with the tool (cross-checked against fixed vectors at start-up)", "single-file layout (layouts are C03's subject)"],
     run,
     replay,
@@ -24,6 +24,9 @@ pub const DEF: PropDef = PropDef {
 pub struct Case {
     pub chain: ChainSpec,
     pub verify: bool,
+    /// the dump folder still holds (longer) *.csv.tmp files of an interrupted earlier run
+    #[serde(default)]
+    pub stale_tmp: bool,
 }
 
 pub fn strategy(tier: Tier) -> BS<Case> {
@@ -36,11 +39,11 @@ pub fn strategy(tier: Tier) -> BS<Case> {
     cfg.ntx = prop_oneof![6 => 0usize..4, 2 => 4usize..12, 1 => Just(0xfbusize), 1 => Just(0xfcusize), 1 => Just(0xfdusize)].boxed();
     // a script's length class is drawn per output: add the raw length classes explicitly
     cfg.tx.script = prop_oneof![6 => gen::ordinary_script(tier), 2 => gen::raw_script(tier)].boxed();
-    (gen::chain(&cfg), any::<bool>())
-        .prop_map(|(mut chain, verify)| {
+    (gen::chain(&cfg), any::<bool>(), proptest::bool::weighted(0.15))
+        .prop_map(|(mut chain, verify, stale_tmp)| {
             let verify = verify && genesis_block(chain.coin).is_some();
             chain.real_genesis = verify;
-            Case { chain, verify }
+            Case { chain, verify, stale_tmp }
         })
         .boxed()
 }
@@ -55,7 +58,17 @@ pub fn check(c: &Case) -> Verdict {
     let w = infra!(World::create("c01", &mut plan));
     let mut o = RunOpts::new(built.coin, Callback::CsvDump);
     o.verify = c.verify;
-    let out = infra!(w.run(&o));
+    let out = if c.stale_tmp {
+        let d = w.new_dump();
+        let total: usize = built.blocks.iter().map(|(_, b)| b.ser().len()).sum();
+        let junk = vec![b'0'; total * 3 + 4096];
+        for stem in Callback::CsvDump.stems() {
+            infra!(std::fs::write(d.join(format!("{}.csv.tmp", stem)), &junk).map_err(|e| e.to_string()));
+        }
+        infra!(w.run_in(&d, &o))
+    } else {
+        infra!(w.run(&o))
+    };
     if let Some(v) = timed_out_is_infra(&out) {
         return v;
     }
@@ -105,7 +118,7 @@ fn run(eng: &Engine, a: &Args) {
         let proto = t.inputs[0].clone();
         t.inputs = (0..0x10001u32).map(|k| { let mut i = proto.clone(); i.src = vpmodel::spec::Src::Unknown((k & 0xff) as u8, k); i.sequence = k; i }).collect();
     }
-    eng.enumerate("wide-transaction", vec![Case { chain: wide, verify: false }], check);
+    eng.enumerate("wide-transaction", vec![Case { chain: wide, verify: false, stale_tmp: false }], check);
 }
 
 fn replay(part: &str, case: serde_json::Value) -> Option<Verdict> {
